@@ -1483,8 +1483,13 @@ class ClientRequest(ClientRequestBase):
         if self._continue is not None:
             # Force headers to be sent before waiting for 100-continue
             writer.send_headers()
-            await writer.drain()
-            await self._continue
+            try:
+                await writer.drain()
+                await self._continue
+            except asyncio.CancelledError:
+                # Body hasn't been sent, so connection can't be reused
+                conn.close()
+                raise
 
         protocol = conn.protocol
         assert protocol is not None
